@@ -19,9 +19,6 @@ theorem marks1_withMarks (p : Payload) (ms : List String) : (p.withMarks ms).mar
     rw [h', (unionMarks_eq_nil.mp h').1]
   · rfl
 
-theorem withMarks_def (p : Payload) (ms : List String) :
-    p.withMarks ms = if (unionMarks p.marks1 ms).isEmpty then p else .marked (unionMarks p.marks1 ms) p.unmark1 := rfl
-
 /-- marking twice is marking once with the union (for a canonical second set) -/
 theorem withMarks_withMarks (p : Payload) (a : List String) {u : List String} (hu : MSorted u) :
     (p.withMarks a).withMarks u = p.withMarks (unionMarks a u) := by
@@ -326,6 +323,202 @@ theorem callTable_noAllow (spec : Spec) (tf : TypeFn) (impl : ImplFn) (args : Li
         simp only
         rw [callTail_noAllow impl rt false (pass2 (spec.expand args.length) args), hm]
         exact finish_noAllow spec _ _ _
+      | err c => rfl
+      | panic w => rfl
+      | unmodelled => rfl
+  · simp [hc, Out.map]
+
+/-! ### non-interference for ANY specification, relative to callbacks that do not look at marks -/
+
+/-- the `Type` callback does not depend on marks -/
+def TypeBlind (tf : TypeFn) : Prop := ∀ as : List Value, tf as = tf (as.map Value.unmarkDeep)
+
+/-- the `Impl` callback computes the same with and without marks (outcome class and
+unmarked result), and hands back a value with proper marker layers -/
+def ImplBlind (impl : ImplFn) : Prop :=
+  ∀ (as : List Value) (t : Ty), (∀ a ∈ as, a.v.markerWF = true) →
+    (impl as t).map Value.unmarkDeep = impl (as.map Value.unmarkDeep) t ∧
+    ∀ r, impl as t = .ok r → r.v.markerWF = true
+
+/-- so does the `RefineResult` callback -/
+def RefineBlind (spec : Spec) : Prop :=
+  ∀ r, spec.refine = some r → ∀ v : Value, (r v).map Payload.stripMarks = r v.unmarkDeep
+
+theorem unmarkDeep_withMarkSets (v : Value) (M : List (List String)) :
+    (withMarkSets v M).unmarkDeep = v.unmarkDeep := by
+  unfold withMarkSets; split
+  · rfl
+  · exact Value.unmarkDeep_withMarks _ _
+
+theorem zipWith_typeArg_clean : ∀ (ps : List Param) (vs : List Value), ps.length = vs.length →
+    List.zipWith Param.typeArg ps (vs.map Value.unmarkDeep) = vs.map Value.unmarkDeep
+  | [], [], _ => rfl
+  | [], _ :: _, h => by simp at h
+  | _ :: _, [], h => by simp at h
+  | p :: ps, v :: vs, h => by
+    simp [Param.typeArg, Value.containsMarked_unmarkDeep, zipWith_typeArg_clean ps vs (by simpa using h)]
+
+theorem pass2_clean : ∀ (ps : List Param) (vs : List Value), ps.length = vs.length →
+    (∀ v ∈ vs, v.v.markerWF = true) →
+    pass2 ps (vs.map Value.unmarkDeep) = ⟨vs.map Value.unmarkDeep, [], (pass2 ps vs).unknown⟩ ∧
+    (pass2 ps vs).args.map Value.unmarkDeep = vs.map Value.unmarkDeep ∧
+    ∀ a ∈ (pass2 ps vs).args, a.v.markerWF = true
+  | [], [], _, _ => by simp [pass2]
+  | [], _ :: _, h, _ => by simp at h
+  | _ :: _, [], h, _ => by simp at h
+  | p :: ps, v :: vs, hl, hw => by
+    obtain ⟨i1, i2, i3⟩ := pass2_clean ps vs (by simpa using hl) (fun w hw' => hw w (by simp [hw']))
+    have hk : p.blocksUnknown v.unmarkDeep = p.blocksUnknown v := by
+      simp [Param.blocksUnknown, isKnown_unmarkDeep_wf (hw v (by simp))]
+    have hc : p.callArg v.unmarkDeep = (v.unmarkDeep, []) := by
+      unfold Param.callArg
+      simp [Value.marksDeep_unmarkDeep]
+    refine ⟨?_, ?_, ?_⟩
+    · simp only [List.map_cons, pass2, hc, i1, hk, List.nil_append]
+    · simp only [pass2, List.map_cons, Param.callArg_unmarkDeep, i2]
+    · intro a ha
+      simp only [pass2, List.mem_cons] at ha
+      rcases ha with rfl | ha
+      · unfold Param.callArg
+        split
+        · split
+          · exact Value.markerWF_unmarkDeep _
+          · exact hw v (by simp)
+        · exact hw v (by simp)
+      · exact i3 a ha
+
+theorem refineWith_blind (rf : RefineFn) (hb : ∀ v : Value, (rf v).map Payload.stripMarks = rf v.unmarkDeep)
+    (val : Value) : Out.map Value.unmarkDeep (refineWith rf val) = refineWith rf val.unmarkDeep := by
+  unfold refineWith
+  have hb' := hb val.unmark
+  rw [Value.unmarkDeep_unmark] at hb'
+  have eun : val.unmarkDeep.unmark = val.unmarkDeep := Value.unmark_of_not_marked (Value.isMarked_unmarkDeep _)
+  have em : val.unmarkDeep.marks = [] := Value.marks_of_not_marked (Value.isMarked_unmarkDeep _)
+  rw [eun, em]
+  cases hq : rf val.unmark with
+  | none => rw [hq] at hb'; simp only [Option.map_none] at hb'; rw [← hb']; rfl
+  | some q =>
+    rw [hq] at hb'
+    simp only [Option.map_some] at hb'
+    rw [← hb']
+    simp only [Out.map, Out.ok.injEq]
+    rw [Value.unmarkDeep_withMarks]
+    have hnm : (⟨val.unmarkDeep.ty, q.stripMarks⟩ : Value).isMarked = false := Payload.isMarked_stripMarks q
+    rw [Value.withMarks_nil_of_unmarked hnm]
+    rfl
+
+theorem finish_blind (spec : Spec) (hr : RefineBlind spec) (val : Value) (hw : val.v.markerWF = true)
+    (tr tr' : List Event) :
+    Out.map Value.unmarkDeep (finish spec (.ok val, tr)).1 = (finish spec (.ok val.unmarkDeep, tr')).1 := by
+  unfold finish
+  cases hrf : spec.refine with
+  | none => rfl
+  | some rf =>
+    simp only [deferredRefine]
+    have hk : val.unmarkDeep.isKnown = val.isKnown := isKnown_unmarkDeep_wf hw
+    have ety : val.unmarkDeep.ty = val.ty := rfl
+    rw [hk, ety]
+    split
+    · exact refineWith_blind rf (hr rf hrf) val
+    · rfl
+
+theorem finish_passes {spec : Spec} {o : Out Value} (ho : ∀ v, o ≠ .ok v) (tr : List Event) :
+    (finish spec (o, tr)).1 = o := by
+  unfold finish
+  cases spec.refine with
+  | none => rfl
+  | some rf =>
+    cases o with
+    | ok v => exact absurd rfl (ho v)
+    | err e => rfl
+    | panic w => rfl
+    | unmodelled => rfl
+
+/-- the part of the call after the `Type` callback -/
+theorem callTail_blind (spec : Spec) (impl : ImplFn) (himpl : ImplBlind impl) (hr : RefineBlind spec)
+    (rt : Ty) (R : Pass2) (as' : List Value) (hp2 : R.args.map Value.unmarkDeep = as')
+    (hp3 : ∀ a ∈ R.args, a.v.markerWF = true) (tr tr' : List Event) :
+    Out.map Value.unmarkDeep (finish spec ((callTail impl rt false R).1, tr)).1 =
+      (finish spec ((callTail impl rt false ⟨as', [], R.unknown⟩).1, tr')).1 := by
+  obtain ⟨hi1, hi2⟩ := himpl R.args rt hp3
+  rw [hp2] at hi1
+  unfold callTail
+  by_cases hu : (false || R.unknown) = true
+  · simp only [hu, if_true]
+    have e0 : withMarkSets (Value.unknown rt) ([] : List (List String)) = Value.unknown rt := rfl
+    have hwf : (withMarkSets (Value.unknown rt) R.marks).v.markerWF = true := by
+      unfold withMarkSets; split
+      · rfl
+      · exact Value.markerWF_withMarks rfl _
+    have hud : (withMarkSets (Value.unknown rt) R.marks).unmarkDeep = Value.unknown rt := by
+      rw [unmarkDeep_withMarkSets]; rfl
+    rw [e0, finish_blind spec hr _ hwf tr tr', hud]
+  · simp only [hu, Bool.false_eq_true, if_false]
+    cases hi : impl R.args rt with
+    | ok retVal =>
+      rw [hi] at hi1
+      have hi1' : impl as' rt = .ok retVal.unmarkDeep := hi1.symm
+      have hwr := hi2 retVal hi
+      simp only [hi1', List.length_nil, Nat.lt_irrefl, gt_iff_lt, if_false]
+      generalize hrv : (if 0 < R.marks.length then withMarkSets retVal R.marks else retVal) = rv
+      have hrv1 : rv.unmarkDeep = retVal.unmarkDeep := by
+        rw [← hrv]; split
+        · exact unmarkDeep_withMarkSets _ _
+        · rfl
+      have hrv2 : rv.ty = retVal.ty := by
+        rw [← hrv]; split
+        · exact withMarkSets_ty _ _
+        · rfl
+      have hrv3 : rv.v.markerWF = true := by
+        rw [← hrv]; split
+        · unfold withMarkSets; split
+          · exact hwr
+          · exact Value.markerWF_withMarks hwr _
+        · exact hwr
+      have ety : retVal.unmarkDeep.ty = retVal.ty := rfl
+      rw [hrv2, ety]
+      split
+      · rw [finish_passes (by simp), finish_passes (by simp)]; rfl
+      · rw [finish_blind spec hr _ hrv3 _ tr', hrv1]
+    | err c =>
+      rw [hi] at hi1
+      simp only [← hi1, Res.map]
+      rw [finish_passes (by simp), finish_passes (by simp)]; rfl
+    | panic w =>
+      rw [hi] at hi1
+      simp only [← hi1, Res.map]
+      rw [finish_passes (by simp), finish_passes (by simp)]; rfl
+    | unmodelled =>
+      rw [hi] at hi1
+      simp only [← hi1, Res.map]
+      rw [finish_passes (by simp), finish_passes (by simp)]; rfl
+
+/-- `Out.map unmarkDeep` of the marked call's result is the unmarked call's result -/
+theorem callTable_blind (spec : Spec) (tf : TypeFn) (impl : ImplFn) (args : List Value)
+    (htf : TypeBlind tf) (himpl : ImplBlind impl) (hr : RefineBlind spec)
+    (hw : ∀ v ∈ args, v.v.markerWF = true) :
+    Out.map Value.unmarkDeep (callTable spec tf impl args).1 =
+      (callTable spec tf impl (args.map Value.unmarkDeep)).1 := by
+  unfold callTable
+  simp only [List.length_map]
+  by_cases hc : spec.countOK args.length = true
+  · simp only [hc, if_true]
+    have hl := Spec.expand_length hc
+    obtain ⟨hp1, hp2, hp3⟩ := pass2_clean _ args hl hw
+    rw [firstFail_unmarkDeep _ _ hw, zipWith_typeArg_clean _ _ hl, hp1]
+    cases hf : firstFail (spec.expand args.length) args with
+    | some kf =>
+      obtain ⟨k, f⟩ := kf
+      cases f <;> simp only [Out.map]
+      have e0 : withMarkSets (Value.unknown .dyn) ([] : List (List String)) = Value.unknown .dyn := rfl
+      rw [e0, unmarkDeep_withMarkSets]; rfl
+    | none =>
+      simp only
+      have htT : tf (List.zipWith Param.typeArg (spec.expand args.length) args) = tf (args.map Value.unmarkDeep) := by
+        rw [htf, map_unmarkDeep_zipWith Param.typeArg_unmarkDeep _ _ hl]
+      rw [htT]
+      cases ht : tf (args.map Value.unmarkDeep) with
+      | ok rt => exact callTail_blind spec impl himpl hr rt _ _ hp2 hp3 _ _
       | err c => rfl
       | panic w => rfl
       | unmodelled => rfl
